@@ -20,6 +20,14 @@ STRENGTH = {
     'C13_m3': 'gradf that returns its argument / a view / an incrementally maintained caller-owned buffer',
     'C14_m4': 'first run: configured-data correspondence only (no concrete input); dominant-l2 stream (lamda >> ||A||^2, default steps) so the optimum oracle exhibits one',
     'C15_m2': 'PowerMethod on genuinely 2-D operands',
+    'C05_m6': 'call sequences: consecutive centred calls with one oshape / dtype and shrinking input shapes',
+    'C08_m6': 'mixed dtypes (real first array, complex second): rejected or equal to the definition',
+    'C11_m5': 'first run: fail-closed translator only; real-valued y in a real dtype with complex parameters must give the same point as the same values stored as complex',
+    'C13_m6': 'accelerate keyword omitted when off (documented default)',
+    'C14_m6': 'l1 weight between 0.5 and 1 of the largest correlation, zero start, default steps (first primal step thresholded back to 0)',
+    'C16_m5': 'SenseRecon with lamda above the largest eigenvalue of A^H A, default and GradientMethod',
+    'C16_m6': 'TotalVariationRecon on 3-D images against an independent dense ADMM with differences along every axis (before: agreement of two solvers)',
+    'C19_m6': 'polynomial lengths with prime factors 13..37',
     'C01_m3': 'systematic grid combinator x operand kind (fresh / input itself / view / non-contiguous view / complex scalar / fft) x storage dtype; flattening stacks get non-contiguous block outputs',
     'C01_m4': 'Interpolate / Gridding leaf stream over the C07 parameter space (3-D grids, coordinates on window ties)',
     'C02_m3': 'whiten / get_cov on 2-D and single-coil data (the internal reshape is then a view in every layout), non-trivial covariance',
